@@ -302,3 +302,21 @@ class Check:
         log('%s %s: obligations %d/%d, evaluations %d, violations %d, known %d, %.1fs' %
             (self.prop, self.tier, dis, ob, evaluations, nviol, len(self.known_hits), wall))
         return 1 if nviol else 0
+
+
+# ---- translators registered by individual checks (kept here so that bin/setup regenerates them too)
+def _libmem_gen():
+    import libmem_common
+    return libmem_common._libmem_gen()
+
+
+def _register_optional():
+    import importlib.util
+    if importlib.util.find_spec('libmem_common') is not None and _libmem_gen not in EXTRA_TRANSLATORS:
+        EXTRA_TRANSLATORS.append(_libmem_gen)
+
+
+try:
+    _register_optional()
+except Exception:
+    pass
